@@ -22,7 +22,7 @@ ODD_S = ['STORY1', 'STORY10', 'story1', 'OPENMEDIA_NCS.W1.BBC.MOS;OM_4.15;OM_4.1
          'L' * 150, 'story', 'storyID', 'item', 'True', 'null', '1.0', '01', '\u00e9', 'e\u0301', 'a\tb', 'a\nb',
          '\u212b', '\u00c5', 'S0/1', '../S0', '#1', '*', '[S0]', 'S0|S1', '$(id)', '\u00a0S0']
 STORY_POOL = SIMPLE_S + ODD_S
-NEW_S = [f'N{i}' for i in range(8)] + ['STORY100', 'n&w', 'NEW;1,2', 'ü1']
+NEW_S = [f'N{i}' for i in range(8)] + ['STORY100', 'n&w', 'NEW;1,2', 'ü1', 'N90 ', '\n      N91\n    ']
 UNKNOWN_S = ['ZZ-unknown', 'S', 'S00', 'story', 'STORY', 'é', '-1', "O'NEILL", '100%', '%s %d', '{x}',
              'OM_4.15,9.9', 'OM_0.0,4.1']
 
@@ -31,7 +31,7 @@ ODD_I = ['ITEM1', 'ITEM10', 'item1', '1', 'i&1', 'OM_4.15.1;7', 'ï2', "O'BRIEN-
          'clip%d', 'OBJ,1.1', 'OBJ,1.2', 'ALT,1.1', 'S0', 'S1',
          'M' * 120, 'item', 'itemID', '01', '1.0', 'e\u0301', '\u00e9', 'i\tj', '[0]', '*', 'I0|I1']
 ITEM_POOL = SIMPLE_I + ODD_I
-NEW_I = [f'J{i}' for i in range(8)] + ['ITEM100', 'j<1']
+NEW_I = [f'J{i}' for i in range(8)] + ['ITEM100', 'j<1', ' J90', 'J91\n']
 UNKNOWN_I = ['ZZ-unknown-item', 'I', 'I00', 'item', '-1', "it'em", '7%', '%(id)s', 'OBJ,9.9', 'NONE,1.1']
 
 # XML 1.0 legal text without CR (parsers normalise it) - see DESIGN.md section 5
@@ -766,6 +766,9 @@ def step_case(draw, kinds=B.ALL_KINDS, faults='some', rich=True, min_stories=0,
     state = xmlcmp.state_of(ET.fromstring(ro['ro_xml']))
     kind, msg_xml = draw(message(state, ro['ro_id'], kinds=kinds, faults=faults, rich=rich,
                                  degenerate=degenerate, timing_mode=timing_mode, foreign_ro=foreign_ro))
+    if rich and draw(st.integers(0, 9)) == 0:
+        # the message as a str that still carries the declaration of the encoding it was decoded from
+        msg_xml = '<?xml version="1.0" encoding="%s"?>' % draw(st.sampled_from(['ISO-8859-1', 'windows-1252', 'UTF-16'])) + msg_xml
     return {'ro_xml': ro['ro_xml'], 'msg_xml': msg_xml}
 
 
@@ -852,6 +855,9 @@ def enum_story_messages(sids, ro_id='RO1', max_sources=3, mid=2000, unknown='ZZ-
         body[1].tag = 'storyItem'
         yield 'roStorySend', env(B.story_send(ro_id, t, head=[T('storySlug', 'resent')], body=body))
     yield 'EAStoryInsert', env(B.ea_story_insert(ro_id, None, new2, with_target=False))
+    # roElementAction without any element_target element
+    yield 'EAStoryReplace', env(B.element_action(ro_id, 'REPLACE', None, [plain_story('N0', ['J0'])]))
+    yield 'EAStoryReplace', env(B.element_action(ro_id, 'REPLACE', None, [plain_story(sids[0] if sids else 'N0')]))
     for t in ('', None, unknown):
         # no usable reference, but the carried story has the ID of an existing one
         for ex in list(sids)[:2]:
